@@ -126,7 +126,8 @@ func c56ScanLoop(c *Ctx, ev *Evaluator, fnName, desc string, cont func(int64) bo
 		if strings.IndexByte(skip, byte(b)) >= 0 {
 			continue
 		}
-		o, err := ev.Iteration(l, b)
+		// like ev.Iteration, and a test delegated to a local predicate closure (never re-bound) is evaluated through its literal
+		o, err := HbIteration(ev, l, b)
 		if err != nil {
 			c.Undecided(rule, construct, fmt.Sprintf("loop body not evaluable for byte %d: %v", b, err))
 			return false
